@@ -210,13 +210,15 @@ def run(ctx):
     # ---- R5 default kinds -----------------------------------------------------------------------
     ctx.rule("C11.R5", "default-kind table equals the specification's for every kind; every arm that can receive a default checks it (unions and references through the one table)", floor=14)
     dm = p.func("_schema_py:_default_matches_schema")
-    table = extract_default_table(p, dm)
+    table = default_table(dm)
     for kind, want in sorted(spec.DEFAULT_KINDS.items()):
+        wanted = {name for name, rep in REPS if isinstance(rep, tuple({"NoneType": type(None), "bool": bool, "int": int, "float": float, "str": str, "list": list, "dict": dict}[t] for t in want.split("|")))}
         got = table.get(kind)
-        if got is None:
-            ctx.unrecognised("C11.R5", f"default of {kind}", dm.where(), "kind not found in the extracted table")
+        if got is None or None in got.values():
+            ctx.unrecognised("C11.R5", f"default of {kind}", dm.where(), f"acceptance not evaluable: {got}")
         else:
-            ctx.check("C11.R5", f"default of {kind} must be {want}", got == want, dm.where(), f"_default_matches_schema: {kind} -> {got}", f"a default for type {kind} is accepted/rejected by `{got}` but the specification requires a JSON value of kind {want}")
+            acc = {name for name, ok in got.items() if ok}
+            ctx.check("C11.R5", f"default of {kind} must be {want}", acc == wanted, dm.where(), f"_default_matches_schema: {kind} accepts {sorted(acc)}", f"a default for type {kind} is accepted for JSON values of kind {sorted(acc)} but the specification requires {want} ({sorted(wanted)})")
     dsp = dm.pos_params[1]
     dnp = dm.pos_params[2] if len(dm.pos_params) > 2 else None
     rec_calls = [n for n in ast.walk(dm.node) if isinstance(n, ast.Call) and isinstance(n.func, ast.Name) and n.func.id == dm.name]
@@ -273,27 +275,31 @@ def run(ctx):
         ctx.check("C11.R6", "max precision of a fixed decimal is floor(log10(2) * (8*size - 1))", ok, ps.where(mp[0]) if mp else ps.where(), f"_parse_schema: {[norm(x) for x in mp]}", "the precision a fixed size can hold is computed differently from the specification")
 
 
-def extract_default_table(p, dm):
-    """kind -> 'type|type' from conjunctions `schema == K and <default is of the wrong type>`"""
-    table = {}
+REPS = (("null", None), ("boolean", True), ("string", "s"), ("int", 1), ("float", 1.5), ("list", []), ("dict", {}))
+
+
+def default_table(dm):
+    """{kind: {JSON value kind: accepted?}} by evaluating the function's guards on one representative per JSON
+    value kind (finite-domain evaluation of the syntax tree; nothing is executed)"""
     dp, sp = dm.pos_params[0], dm.pos_params[1]
-
-    def classify(t):
-        if t == f"{dp} is not None":
-            return "NoneType"
-        pre = f"not isinstance({dp}, "
-        if t.startswith(pre) and t.endswith(")"):
-            return t[len(pre) : -1]
-        if t.startswith("not isinstance(") and f"({dp}), float)" in t:
-            return "float|int"
-        return "?" + t
-
+    np_ = dm.pos_params[2] if len(dm.pos_params) > 2 else None
+    # atoms: isinstance(<f>(default), float) -- the float coercion helper accepts ints and floats
+    coerced = set()
     for n in ast.walk(dm.node):
-        if isinstance(n, ast.BoolOp) and isinstance(n.op, ast.And) and len(n.values) == 2:
-            a, b = n.values
-            if isinstance(a, ast.Compare) and norm(a.left) == sp and len(a.ops) == 1:
-                kinds = literals_tested(a, sp)
-                for k in kinds or ():
-                    if not k.startswith("<"):
-                        table[k] = classify(norm(b))
-    return table
+        if isinstance(n, ast.Call) and isinstance(n.func, ast.Name) and n.func.id == "isinstance" and len(n.args) == 2 and isinstance(n.args[0], ast.Call) and [norm(x) for x in n.args[0].args] == [dp] and norm(n.args[1]) == "float":
+            coerced.add(norm(n))
+    out = {}
+    for kind in spec.DEFAULT_KINDS:
+        out[kind] = {}
+        for name, rep in REPS:
+            env = {dp: rep, sp: kind}
+            if np_:
+                env[np_] = None
+            atoms = {t: isinstance(rep, (int, float)) for t in coerced}
+            r = guards.run_chain(dm.node.body, env, atoms)
+            if r[0] == "return":
+                v = guards.eval_bool(r[1], env, atoms) if r[1] is not None else False
+                out[kind][name] = v
+            else:
+                out[kind][name] = None
+    return out
